@@ -5,7 +5,8 @@
    (valid-by-construction documents of the GqlExec builder, structured random documents, single labelled injections and
    their metamorphic variants); TLC evaluates every rule on every case.
    Schema (the harness builds the same one):
-     type Query { a: Int  b(x: Int, l: [Int]): String  o: Obj  i: I  u: U  os: [Obj]  r(req: Int!): Int  d(nd: Int! = 1, nl: [Int!]): Int  is: [I] }
+     type Query { a: Int  b(x: Int, l: [Int]): String  o: Obj  i: I  u: U  os: [Obj]  r(req: Int!): Int  d(nd: Int! = 1, nl: [Int!]): Int  is: [I]
+                  k(j: Any, js: [Any]): Int }     scalar Any
      type Obj implements I { a: Int  o: Obj  s: String  b(x: Int): String  c(p: Int = 1, q: Int = 5): Int }
      type Obj2 implements I { a: Int  s: Int!  n: String  c(p: Int = 2): Int }      interface I { a: Int  c(p: Int = 1): Int }
      union U = Obj | Obj2     union U2 = Obj2     interface J { s: String }  (implemented by Obj only)     Query.j: J   Query.u2: U2
@@ -28,12 +29,14 @@ F(n, t, args) == [name |-> n, type |-> t, args |-> args]
 A(n, t) == [name |-> n, type |-> t, hasDef |-> FALSE]
 D(n, t) == [name |-> n, type |-> t, hasDef |-> TRUE]
 Kind == [J |-> "interface", U2 |-> "union", Query |-> "object", Mutation |-> "object", Subscription |-> "object", In |-> "input", Obj |-> "object", Obj2 |-> "object", I |-> "interface", U |-> "union",
-         Int |-> "scalar", String |-> "scalar", Boolean |-> "scalar", ID |-> "scalar", Float |-> "scalar", E |-> "enum"]
+         Int |-> "scalar", String |-> "scalar", Boolean |-> "scalar", ID |-> "scalar", Float |-> "scalar", E |-> "enum",
+         Any |-> "scalar"]      \* a custom scalar whose coercion accepts every leaf literal (ValidValue: no constraint)
 Fields == [Query |-> << F("a", Named("Int"), <<>>), F("b", Named("String"), <<A("x", Named("Int")), A("l", ListOf(Named("Int")))>>),
                         F("o", Named("Obj"), <<>>), F("i", Named("I"), <<>>), F("u", Named("U"), <<>>), F("os", ListOf(Named("Obj")), <<>>),
                         F("r", Named("Int"), <<A("req", NN(Named("Int")))>>),
                         F("d", Named("Int"), <<D("nd", NN(Named("Int"))), A("nl", ListOf(NN(Named("Int"))))>>), F("is", ListOf(Named("I")), <<>>), F("j", Named("J"), <<>>), F("u2", Named("U2"), <<>>),
-                        F("f", Named("Int"), <<A("in", Named("In")), A("ins", ListOf(NN(Named("In"))))>>) >>,
+                        F("f", Named("Int"), <<A("in", Named("In")), A("ins", ListOf(NN(Named("In"))))>>),
+                        F("k", Named("Int"), <<A("j", Named("Any")), A("js", ListOf(Named("Any")))>>) >>,
            Mutation |-> << F("m", Named("Int"), <<A("x", Named("Int"))>>), F("o", Named("Obj"), <<>>) >>,
            Subscription |-> << F("s1", Named("Int"), <<>>), F("s2", Named("Int"), <<A("x", Named("Int"))>>), F("o", Named("Obj"), <<>>) >>,
            In |-> <<>>,
@@ -42,7 +45,7 @@ Fields == [Query |-> << F("a", Named("Int"), <<>>), F("b", Named("String"), <<A(
            Obj2  |-> << F("a", Named("Int"), <<>>), F("s", NN(Named("Int")), <<>>), F("n", Named("String"), <<>>), F("c", Named("Int"), <<D("p", Named("Int"))>>) >>,
            I     |-> << F("a", Named("Int"), <<>>), F("c", Named("Int"), <<D("p", Named("Int"))>>) >>,
            J     |-> << F("s", Named("String"), <<>>) >>, U2 |-> <<>>,
-           U     |-> <<>>, Int |-> <<>>, String |-> <<>>, Boolean |-> <<>>, ID |-> <<>>, Float |-> <<>>, E |-> <<>>]
+           U     |-> <<>>, Int |-> <<>>, String |-> <<>>, Boolean |-> <<>>, ID |-> <<>>, Float |-> <<>>, E |-> <<>>, Any |-> <<>>]
 Possible == [J |-> {"Obj"}, U2 |-> {"Obj2"}, I |-> {"Obj", "Obj2"}, U |-> {"Obj", "Obj2"}, Query |-> {"Query"}, Mutation |-> {"Mutation"}, Subscription |-> {"Subscription"}, Obj |-> {"Obj"}, Obj2 |-> {"Obj2"}]
 InFields == << D("x", Named("Int")), A("y", NN(Named("Int"))), A("n", Named("In")), A("l", ListOf(NN(Named("Int")))) >>
 InField(n) == LET idx == {k \in 1..Len(InFields) : InFields[k].name = n}
